@@ -42,6 +42,56 @@ type cssDecl struct{ prop, val string }
 // parser does: ';' separates declarations only at top level (outside strings,
 // url(), parentheses / brackets / braces, comments and escapes); the first
 // top-level ':' separates property from value.
+// urlTokenEnd: s[i] is '('. If the identifier before it reads "url" (escapes decoded, ASCII case-insensitive) and
+// the argument does not begin with a quote, the text from here is a url token for a browser (CSS Syntax 4.3.6); the
+// index just after its closing ')' (or len(s)) is returned.
+func urlTokenEnd(s string, i int) (int, bool) {
+	b := i
+	for b > 0 {
+		c := s[b-1]
+		if c >= 'a' && c <= 'z' || c >= 'A' && c <= 'Z' || c >= '0' && c <= '9' || c == '-' || c == '_' || c == '\\' || c >= 0x80 {
+			b--
+			continue
+		}
+		// the white space that ends a hex escape belongs to the identifier
+		if (c == ' ' || c == '\t' || c == '\n') && b >= 2 && isHexByte(s[b-2]) {
+			k := b - 2
+			for k > 0 && isHexByte(s[k-1]) && b-2-k < 5 {
+				k--
+			}
+			if k > 0 && s[k-1] == '\\' {
+				b = k - 1
+				continue
+			}
+		}
+		break
+	}
+	if obs.ASCIILower(obs.CSSDecode(s[b:i])) != "url" {
+		return 0, false
+	}
+	j := i + 1
+	for j < len(s) && (s[j] == ' ' || s[j] == '\t' || s[j] == '\n' || s[j] == '\r' || s[j] == '\f') {
+		j++
+	}
+	if j < len(s) && (s[j] == '"' || s[j] == '\'') {
+		return 0, false // url( + string: an ordinary function
+	}
+	for j < len(s) {
+		switch s[j] {
+		case ')':
+			return j + 1, true
+		case '\\':
+			j++
+		}
+		j++
+	}
+	return len(s), true
+}
+
+func isHexByte(c byte) bool {
+	return c >= '0' && c <= '9' || c >= 'a' && c <= 'f' || c >= 'A' && c <= 'F'
+}
+
 func splitStyle(s string) (decls []cssDecl, garbage []string) {
 	var chunks []string
 	var open []byte // expected closers of the blocks that are open
@@ -76,6 +126,12 @@ func splitStyle(s string) (decls []cssDecl, garbage []string) {
 			}
 			continue
 		case ch == '(':
+			if j, isURL := urlTokenEnd(s, i); isURL {
+				// an unquoted url( token (well formed or bad) ends at its first unescaped ')': quotes, comment
+				// marks and brackets inside it mean nothing
+				i = j
+				continue
+			}
 			open = append(open, ')')
 		case ch == '[':
 			open = append(open, ']')
@@ -131,7 +187,7 @@ func splitStyle(s string) (decls []cssDecl, garbage []string) {
 }
 
 func dePrefix(prop string) string {
-	p := strings.ToLower(prop)
+	p := obs.ASCIILower(prop)
 	for _, pre := range cssPrefixes {
 		p = strings.TrimPrefix(p, pre)
 	}
@@ -144,7 +200,7 @@ func styleRuleAccepts(r spec.StyleRule, val string) bool {
 		return r.Handler(val)
 	case len(r.Enum) > 0:
 		for _, e := range r.Enum {
-			if strings.EqualFold(e, val) {
+			if obs.ASCIILower(e) == val {
 				return true
 			}
 		}
@@ -172,7 +228,7 @@ func judgeStyleValue(v *spec.View, el, style string) (sig, what string) {
 		if len(rules) == 0 {
 			return "property", fmt.Sprintf("declaration %s kept on <%s> although property %q is not allowlisted", run.Q(d.prop+": "+d.val), el, prop)
 		}
-		val := strings.ToLower(obs.CSSDecode(d.val))
+		val := obs.ASCIILower(obs.CSSDecode(d.val))
 		ok := false
 		for _, r := range rules {
 			if styleRuleAccepts(r, val) {
@@ -208,7 +264,7 @@ func expectedStyle(v *spec.View, el string, decls []cssDecl) string {
 			}
 		}
 		rules = append(rules, v.GlobStyle[prop]...)
-		val := strings.ToLower(d.val)
+		val := obs.ASCIILower(d.val)
 		for _, r := range rules {
 			if styleRuleAccepts(r, val) {
 				keep = append(keep, d.prop+": "+d.val)
@@ -246,6 +302,12 @@ var c10Decls = []declFrag{
 	dirty(`font-family: [a(b]c)`), dirty(`font-family: 'it\'s'`), dirty(`font-family: "a\"b" x`),
 	dirty(`color: a(`), dirty(`color: b)`), dirty(`font-family: [x`), dirty(`font-family: "a`), dirty(`color: rgb(1`),
 	dirty(`font-family: \110000 x`), dirty(`font-family: \0 `), dirty(`color:red`), dirty(`color : red`), dirty(`color: "red"`),
+	// a url token that a quote, a comment mark or a blank turns into a bad-url: for a browser it ends at the first ')'
+	dirty(`background: url(x");position:fixed;top:0;x:")`), dirty(`background: url(x ');position:fixed;x:')`),
+	dirty(`background: url(x /*);position:fixed;x:*/)`), dirty(`background: u\72l(x");position:fixed;x:")`),
+	dirty(`background: url(a.png)`), dirty(`background: url( "a;b" )`), dirty(`background: url(a\)b)`), dirty(`background: url(a b)`), dirty(`background: url(a(b)`),
+	// letters that only Unicode case folding maps onto ASCII ones (U+212A Kelvin sign, U+017F long s)
+	dirty("bac\u212aground: red"), dirty("color: blac\u212a"), dirty("color: \u017folid"), dirty("font-family: blac\u212a"), dirty("font-family: \u017folid"),
 }
 
 func c10Specs() []built {
@@ -307,6 +369,14 @@ func c10Specs() []built {
 		// a matcher that accepts everything except some constructs: what it judges must be what a browser reads
 		spec.Spec{Name: "c10-excluding-handler", Base: "new", Calls: []C{els("p", "span"), {Op: "AllowElementsMatching", Re: reMy},
 			{Op: "AllowStyles", Names: []string{"color", "font-family", "background"}, Handler: "no-url", Scope: "global"}}},
+		// a handler that accepts everything: what survives must still be, for a browser, only the declarations it judged
+		spec.Spec{Name: "c10-accept-all-handler", Base: "new", Calls: []C{els("p", "span"), {Op: "AllowElementsMatching", Re: reMy},
+			{Op: "AllowStyles", Names: []string{"color", "font-family", "background"}, Handler: "always", Scope: "global"}}},
+		// matchers whose accepted words contain k and s (Unicode case folding must not widen them)
+		spec.Spec{Name: "c10-fold-ks", Base: "new", Calls: []C{els("p", "span"), {Op: "AllowElementsMatching", Re: reMy},
+			{Op: "AllowStyles", Names: []string{"color"}, Enum: []string{"black", "solid"}, Scope: "global"},
+			{Op: "AllowStyles", Names: []string{"font-family"}, Re: `^(black|solid)$`, Scope: "global"},
+			{Op: "AllowStyles", Names: []string{"background"}, Handler: "is-red", Scope: "global"}}},
 		// enum entries and property names spelled with upper-case letters by the caller
 		spec.Spec{Name: "c10-enum-mixed-case", Base: "new", Calls: []C{els("p", "span"), {Op: "AllowElementsMatching", Re: reMy},
 			{Op: "AllowStyles", Names: []string{"Color", "FONT-family"}, Enum: []string{"Red", "GREEN", "Arial"}, Scope: "global"},
@@ -314,6 +384,10 @@ func c10Specs() []built {
 		}})
 	return buildAll(out)
 }
+
+// c10Heads / c10Tails: CSS white space before the first and after the last declaration of a style attribute.
+var c10Heads = []string{"", "\n", " \t"}
+var c10Tails = []string{"", ";", ";\n", ";\t", ";\r\n", ";\f", " ;", "; ", ";\n  "}
 
 var c10Elements = []string{"p", "span", "my-x", "my-y"}
 
@@ -415,6 +489,57 @@ func runC10(c *run.Ctx) {
 	texts := make([]string, len(c10Decls))
 	for i, d := range c10Decls {
 		texts[i] = d.text + ";"
+	}
+	// white space around a cleanly parseable style (a style attribute written on several lines): every sequence of <=2
+	// clean declarations with a head and a tail of CSS white space; the surviving declarations are the same as without
+	var cleanIdx []int
+	for i, d := range c10Decls {
+		if d.clean {
+			cleanIdx = append(cleanIdx, i)
+		}
+	}
+	for hi, head := range c10Heads {
+		for ti, tail := range c10Tails {
+			for _, i := range cleanIdx {
+				for _, j := range append([]int{-1}, cleanIdx...) {
+					idx := []int{i}
+					if j >= 0 {
+						idx = append(idx, j)
+					}
+					if !c.Own([]byte("c10ws"), []byte(fmt.Sprint(hi, ti, idx))) {
+						continue
+					}
+					for _, el := range c10Elements[:2] {
+						_, frs := c10Doc(el, idx, ";\n")
+						var parts []string
+						for _, f := range frs {
+							parts = append(parts, f.text)
+						}
+						style := head + strings.Join(parts, ";\n") + tail
+						doc := "<" + el + " id=a style=" + htmlAttrQuote(style) + ">t</" + el + ">"
+						c.States++
+						for bi := range bs {
+							b := &bs[bi]
+							out, pm := San(b.P, doc)
+							c.Eval()
+							c.Transitions++
+							ex, _ := json.Marshal(c10Extra{El: el, Idx: idx, Sep: ";\n"})
+							cs := mkCase(b.S, []byte(doc))
+							cs.Extra = ex
+							if pm != "" {
+								c.Violate("panic", "Sanitize panicked: "+pm, cs)
+								continue
+							}
+							sig, what, _ := judgeC10(b, el, frs, ";\n", doc, out)
+							if sig != "" {
+								c.Violate(sig+"|white-space", fmt.Sprintf("%s; policy=%s input=%s output=%s", what, b.S.Name, run.Q(doc), run.Q(out)), cs)
+								c.Outcome("violation|" + sig)
+							}
+						}
+					}
+				}
+			}
+		}
 	}
 	k := 3
 	if !c.Quick() {
